@@ -610,6 +610,36 @@ example : ∃ A, createSpelled (.py .float) (some [2]) none false = some (.ok A)
 open Nix.NdSpell Nix.Gen.DataSetDType in
 example : spelledArg (.py .str) = some .numpyText ∧ spelledArg (.dtypeObj none "U") = some (.nix .string) := by decide
 
+open Nix.NdSpell Nix.Gen.DataSetDType in
+/-- **what an array reports as its element type is its element type.**  `da.data_type` (the compiled getters
+`H5DataSet.dtype` → `DataSet._get_dtype` → `data_type`: nixio's text type for a text array, else h5py's NumPy
+dtype) and `da.dtype` (`DataArray.dtype`: h5py's dtype, the variable-length string dtype for text) name the
+element type `A.dtype`: NumPy reads the reported value as that type, and handing it to `create_data_array` as the
+dtype argument creates exactly what `dtype=A.dtype` creates — in particular an array of the same element type -/
+theorem C01_reported_type (A : DArr) (shape : Option (List Nat)) (data : Option Arr) (compr : Bool) :
+    createWith (dsDataType (storedDtype A.dtype)) shape data compr
+      = some (createS (some A.dtype) shape data compr) ∧
+    createWith (daDtype (storedDtype A.dtype)) shape data compr
+      = some (createS (some A.dtype) shape data compr) ∧
+    (∀ B, createWith (dsDataType (storedDtype A.dtype)) shape data compr = some (.ok B) → B.dtype = A.dtype) ∧
+    (∀ B, createWith (daDtype (storedDtype A.dtype)) shape data compr = some (.ok B) → B.dtype = A.dtype) ∧
+    (A.dtype = .string → dsDataType (storedDtype A.dtype) = .spelled (.nix "String")) ∧
+    (A.dtype ≠ .string → ∃ s, dsDataType (storedDtype A.dtype) = .spelled s ∧
+      daDtype (storedDtype A.dtype) = .spelled s ∧ meaning dataTypeMembers s = some ⟨A.dtype, false⟩) := by
+  obtain ⟨h1, h2⟩ := createWith_reported A.dtype shape data compr
+  refine ⟨h1, h2, fun B hB => ?_, fun B hB => ?_, fun hs => by rw [hs]; rfl, fun hs => ?_⟩
+  · rw [h1] at hB; exact createS_dtype (Option.some.inj hB)
+  · rw [h2] at hB; exact createS_dtype (Option.some.inj hB)
+  · refine ⟨.dtypeObj none (typeCode A.dtype), ?_, ?_, ?_⟩
+    · cases hd : A.dtype <;> first | rfl | exact absurd hd hs
+    · cases hd : A.dtype <;> first | rfl | exact absurd hd hs
+    · cases hd : A.dtype <;> first | decide | exact absurd hd hs
+
+open Nix.NdSpell Nix.Gen.DataSetDType in
+/-- creation by spelling is creation with that value of the dtype argument -/
+example (s : Spelling) (sh : Option (List Nat)) (d : Option Arr) (c : Bool) :
+    createSpelled s sh d c = createWith (.spelled s) sh d c := rfl
+
 /-! ## Sources that are not arrays: lists, tuples, ranges, Python scalars
 
 A whole-array write and a region assignment hand such a source to h5py, which reads it with the array's own
